@@ -113,7 +113,10 @@ def generate(cgs, variants_of, workdir, render=None):
             path = os.path.join(src, m + ".lalrpop")
             with open(path, "w") as f:
                 f.write((render or core.render)(cg, algo, backend))
-            jobs.append({"id": m, "file": path, "lane_table": core.ALGOS[algo][1], "timeout_s": 120})
+            job = {"id": m, "file": path, "lane_table": core.ALGOS[algo][1], "timeout_s": 120}
+            if cg.get("cfg"):
+                job["features"] = list(cg.get("features", []))
+            jobs.append(job)
     res = lp.run_jobs(jobs, workdir)
     for m, r in res.items():
         r["rs"] = os.path.join(src, m + ".rs")
